@@ -6,7 +6,7 @@ UNIT = {
     'functions': [{'file': 'riscv_analysis/src/parser/parsing.rs', 'item': 'impl TryFrom<&mut Peekable<Lexer>> for ParserNode :: fn try_from'}],
     'obligations': [
         {'id': 'decode_n.table', 'recipe': ['decode-search'], 'props': ['C08', 'C17'], 'kind': 'bounded',
-         'bound': '13 statements that must be rejected (lui operand outside 20 bits, literals outside 32 bits, wrong operand kinds) and 92 mnemonic/operand forms: every base mnemonic with one or two concrete register/immediate choices (exact fields), '
+         'bound': '119 statements in all: statements that must be rejected (lui operand outside 20 bits, literals outside 32 bits, wrong operand kinds) and mnemonic/operand forms (incl. the bare-offset and parenthesised forms of loads, stores and jalr, and 5 statements that expand to two instructions): every base mnemonic with one or two concrete register/immediate choices (exact fields), '
                   'every pseudo-instruction against its official expansion on an 8x8 grid of boundary register values',
          'clause': 'every mnemonic and operand form builds the instruction the manual assigns to the text; every pseudo-instruction has the same '
                    'effect (register result, branch decision, jump) as its official expansion',
